@@ -61,10 +61,16 @@ package db
 //@   ensures Z(result) == @select(ghost(bsize), ref(this))
 //@   modifies nothing
 
+// ioReliable(): the store reports no write errors. Functions whose claim is about the fault-free run only assume
+// it explicitly (requires [io!init] ioReliable(), listed as an assumption); everything else is verified with
+// failing writes possible.
+//@ spec abstract fn ioReliable() bool
 //@ func Batch.Write
 //@   option trusted interface
-//@   ensures result == nil
-//@   ensures [flushed] forall k Bytes :: @select(@select(ghost(kvhas), @select(ghost(btarget), ref(this))), k) == (@select(@select(old(ghost(kvhas)), @select(ghost(btarget), ref(this))), k) || @select(@select(ghost(bpend), ref(this)), k))
+//@   # a batch is written atomically: all of it on success, none of it when an error is reported
+//@   ensures [flushed] result == nil ==> forall k Bytes :: @select(@select(ghost(kvhas), @select(ghost(btarget), ref(this))), k) == (@select(@select(old(ghost(kvhas)), @select(ghost(btarget), ref(this))), k) || @select(@select(ghost(bpend), ref(this)), k))
+//@   ensures [failed]  result != nil ==> ghost(kvhas) == old(ghost(kvhas))
+//@   ensures [reliable] ioReliable() ==> result == nil
 //@   ensures [others]  forall d Int :: d != @select(ghost(btarget), ref(this)) ==> @select(ghost(kvhas), d) == @select(old(ghost(kvhas)), d)
 //@   modifies ghost(kv), ghost(kvhas)
 
